@@ -190,3 +190,17 @@ Theorem C12_reference_shard_iterate_under_faults : forall size lg, permitted siz
     /\ NoDup (filter is_yield evs).
 Proof. exact ref_history_iterate_under_faults. Qed.
 Print Assumptions C12_reference_shard_iterate_under_faults.
+
+(* reference-written files in the trickle layout (File/Trickle.v): under ANY set of unavailable blocks a sequential read obtains
+   exactly the content preceding the first unavailable block, then that block's load error, never end-of-file *)
+From UV Require Import File.Builder File.BuilderProofs File.Trickle File.TrickleProofs.
+Theorem C12_reference_trickle_read_fault : forall (W : nat) (chunks : list bytes), (1 <= W)%nat -> chunks <> [] -> (blen (concat chunks) < bound63)%N ->
+  let b := fst (trickle_layout W chunks) in
+  forall fault,
+  let s0 := stream nofault b 0 in
+  let '(pre, o) := before_fault fault s0 in
+  sview (stream fault b 0) = (pre, match o with Some (_, e) => StErr e | None => StEOF end)
+  /\ (exists rest, concat chunks = pre ++ rest /\ (o = None -> rest = []))
+  /\ (forall blk e, o = Some (blk, e) -> fault blk = Some e).
+Proof. exact trickle_read_fault. Qed.
+Print Assumptions C12_reference_trickle_read_fault.
